@@ -250,8 +250,9 @@ class AbstractFieldFormat(object):
             possibly_stripped_value = value.strip()
         else:
             possibly_stripped_value = value
-        if possibly_stripped_value:
+        if possibly_stripped_value or (value.strip(" ") != ""):
             # NOTE: A fixed value consisting only of blanks is empty, even if blanks are no allowed characters.
+            # Other white space characters still have to be allowed characters.
             self.validate_characters(value)
         self.validate_empty(possibly_stripped_value)
         self.validate_length(value)
